@@ -1,6 +1,6 @@
 (* C13: the statements about the faithful (iterative) interpreter model, assembled from
    InterpRefine.v (iterative = recursive) and InterpSound.v (recursive form sound). *)
-From Verif Require Import Exec ExecTrace Ser Ast Types TypeCheck ExecLemmas TheoremA InterpModel InterpRefine InterpSound InterpRefuted.
+From Verif Require Import Exec ExecTrace Ser Ast Types TypeCheck ExecLemmas TheoremA SatSpec InterpModel InterpRefine InterpSound InterpRefuted InterpComplete.
 From Coq Require Import Lia.
 Local Open Scope N_scope.
 
@@ -46,6 +46,21 @@ Proof.
   intros [H1 [H2 [H3 H4]]] [Hk1 [Hk2 Hk3]] Hseq Hver m t items cs Ht Hb Hwf Hc Hsz H.
   rewrite interp_eq_rec in H.
   exact (interp_rec_exact e ke kp H1 H2 H3 H4 Hseq Hver Hk1 Hk2 Hk3 m t items cs Ht Hb Hwf Hc Hsz H).
+Qed.
+
+(* interp_complete on the specification's satisfaction table (what the satisfier answers from) *)
+Definition assets_fit (e : env) (ke : keyenv) (kp : bytes -> bool) (A : assets) : Prop :=
+  assets_ok e ke A /\ (forall k s, SatSpec.a_sig A k = Some s -> s <> [1]) /\
+  (forall k, kb ke k <> [1]) /\ (forall k, kp (kb ke k) = true).
+
+Lemma interp_complete_sat (e : env) (ke : keyenv) (kp : bytes -> bool) (A : assets) :
+  num_facts -> assets_fit e ke kp A ->
+  forall (m : ms) (t : ty) (w : wit),
+    type_of m = ROk t -> c_base (t_corr t) = BB -> wf e ke m -> no_multi m ->
+    In w (all_sat ke A m) -> exists cs, interp e ke kp m (astack_of_items (rev w)) = IAccept cs.
+Proof.
+  intros [H1 [H2 [H3 H4]]] [HA [Hs1 [Hk1 Hkp]]] m t w.
+  exact (interp_complete_table e ke kp A H1 H2 H3 H4 HA Hs1 Hk1 Hkp m t w).
 Qed.
 
 (* non-vacuity: the hypotheses about the environment are satisfiable together with an accepting run *)
